@@ -136,10 +136,11 @@ class NameValReplacer(ast.NodeTransformer):
 class ASTRewriter(ast.NodeTransformer):
     """Rewrites the ast to a simplified version"""
 
-    def __init__(self, env=None, ret=None):
+    def __init__(self, env=None, ret=None, user_functions=[]):
         self.env = Environment() if env is None else env
         self.ret = None
         self._uniqd = 1
+        self.user_functions = user_functions
 
     @property
     def uniqd(self):
@@ -322,7 +323,7 @@ class ASTRewriter(ast.NodeTransformer):
         if self.ret is not None:
             # A function defined inside the function: its arguments and variables are its
             # own, they must not replace the types of the enclosing function's variables
-            inner = ASTRewriter()
+            inner = ASTRewriter(user_functions=self.user_functions)
             inner._uniqd = self._uniqd
             node = inner.visit(node)
             self._uniqd = inner._uniqd
@@ -567,7 +568,7 @@ class ASTRewriter(ast.NodeTransformer):
 
     def visit_Call(self, node):
         node.args = [self.visit(ar) for ar in node.args]
-        if not hasattr(node.func, "id"):
+        if not hasattr(node.func, "id") or node.func.id in self.user_functions:
             return node
 
         if node.func.id == "print":
